@@ -558,7 +558,7 @@ class StmtMixin:
         """Hoare rule for loops. `inv` is a LoopSpec(invariant=callable, decreases=callable|None)."""
         path = self.path
         is_for = isinstance(node, ast.For)
-        label = f"loop{frame.loop_ordinals[id(node)]}@L{node.lineno}"
+        label = f"{getattr(self, 'unit_label', '')}/{frame.info.qualname if frame.info else ''}.loop{frame.loop_ordinals[id(node)]}"
         if is_for:
             getter, count = self.indexer(it)
             count_t = to_term(count, "int")
